@@ -81,21 +81,21 @@ CLAIMED = {
     "C01": (
         "proof",
         "Coq theorems on the whole-pipeline Gallina model (every unguarded Python read modelled as a raising read, every loop on explicit fuel) + whole-pipeline differential correspondence incl. exception class and termination + totality exploration of the implementation",
-        "The model of parse/render (block parser, inline parser, core chain, renderer; coq/Model) raises exactly where an unguarded read of the Python source would and runs every loop on fuel, so 'total' is the statement 'never Raise, never OutOfFuel'. Proved for ALL inputs so far (partial): numeric character references only reach chr() with a valid code point (C01_entity_chr_safe, C01_entity_codes_nonneg), the renderer never raises on any token list (C01_render_total), skipToken never recurses past maxNesting (C01_skip_token_cap), reads of the line tables inside their range succeed (C01_table_read_in_range). The whole-pipeline totality theorem is NOT proved: per-rule safety is decided each run by comparing model and implementation on exception class and termination over ~500 (quick) (configuration, API, document) cases, and by exploring the implementation: generated documents x configuration lattice x 4 APIs, ALL pairs of 47 line shapes and sampled 3-4 line sequences, truncated seeds, 40 deep-nesting/long-run families, Unicode white space at every trimming/splitting site, CLI on arbitrary bytes, the documented TypeErrors - each under a wall-clock limit.",
+        "The model of parse/render (block parser, inline parser, core chain, renderer; coq/Model) raises exactly where an unguarded read of the Python source would and runs every loop on fuel, so 'total' is the statement 'never Raise, never OutOfFuel'. Proved for ALL inputs so far (partial): numeric character references only reach chr() with a valid code point (C01_entity_chr_safe, C01_entity_codes_nonneg), the renderer never raises on any token list (C01_render_total), skipToken never recurses past maxNesting (C01_skip_token_cap), reads of the line tables inside their range succeed (C01_table_read_in_range) and every read of a fresh StateBlock's tables at a line in [0, lineMax] succeeds for every source (C01_fresh_tables_readable). The whole-pipeline totality theorem is NOT proved: per-rule safety is decided each run by comparing model and implementation on exception class and termination over ~500 (quick) (configuration, API, document) cases, and by exploring the implementation: generated documents x configuration lattice x 4 APIs, ALL pairs of 47 line shapes and sampled 3-4 line sequences, truncated seeds, 40 deep-nesting/long-run families, Unicode white space at every trimming/splitting site, CLI on arbitrary bytes, the documented TypeErrors - each under a wall-clock limit.",
         "Trusted: Coq kernel; hand model tied to the code by sampled correspondence; totality of the whole pipeline is exploration, not a theorem (partial); re/str primitives assumed non-raising on str; linkify-it-py absent.",
         "DESIGN.md §3 C01",
     ),
     "C02": (
         "proof",
         "Coq proofs on the stream / inline post-processing / push models (all token lists) + whole-pipeline differential correspondence + executable well-formedness predicate on implementation streams",
-        "Theorems for ALL token lists: fragments_join leaves levels equal to depth and no adjacent text tokens (C02_fragments_join_wf), text_join leaves no text_special placeholder (C02_text_join_no_special), StateBlock.push assigns level = depth (C02_block_push_level), a tree that builds flattens back to the identical stream (C02_tree_roundtrip). That every block and inline rule pushes balanced segments is not yet a theorem: it is carried each run by the whole-pipeline correspondence (model tokens = implementation tokens) and by the well-formedness predicate (nesting balance, level = depth, open/close pairing by type/tag/markup, inline children only on inline tokens, tree constructibility) evaluated on ~2000 (quick) implementation streams under random rule subsets, maxNesting cut-offs and typographer settings.",
-        "Trusted: Coq kernel; models tied by sampled correspondence; producer side (rules push balanced segments) by exploration (partial).",
+        "Block half PROVED on the model for EVERY source, env and configuration (and any value of the opaque dependencies): what ParserBlock.parse appends to the token list is a balanced segment at depth 0 - openers and closers pair up in nested fashion, every level is the running depth, nesting sums to zero, the state level returns to 0 (C02_block_stream_balanced, C02_nested_tokenize_balanced, C02_balanced_levels); the proof covers all 11 block rules incl. recursive containers, table bodies, terminator chains, after-the-fact map / hidden updates, the line loop and the recursion on container depth. Stream theorems for ALL token lists: fragments_join leaves levels equal to depth and no adjacent text tokens (C02_fragments_join_wf), text_join leaves no text_special placeholder (C02_text_join_no_special), StateBlock.push assigns level = depth (C02_block_push_level), a tree that builds flattens back to the identical stream (C02_tree_roundtrip). That every inline rule pushes balanced segments (and open/close pairing by type and tag) is not yet a theorem: it is carried each run by the whole-pipeline correspondence (model tokens = implementation tokens) and by the well-formedness predicate (nesting balance, level = depth, open/close pairing by type/tag/markup, inline children only on inline tokens, tree constructibility) evaluated on ~2000 (quick) implementation streams under random rule subsets, maxNesting cut-offs and typographer settings.",
+        "Trusted: Coq kernel; models tied by sampled correspondence; inline producer side and type/tag pairing by exploration (partial).",
         "DESIGN.md §3 C02",
     ),
     "C03": (
         "proof",
         "Coq proofs on the block model (thematic break rule, line scanner) + whole-pipeline differential correspondence incl. maps + source-map predicate on implementation streams",
-        "Theorems: the thematic break rule maps exactly its own line and advances by one (C03_hr_map); the line scanner is a left fold that splits at any point, so line tables of a concatenation are the concatenated tables (C03_line_scan_splits). The general map law (maps lie inside the document, children nest inside parents, siblings are ordered and disjoint, each block's map covers exactly its lines) is decided each run on the implementation by the map predicate over the syntax tree for ~2000 (quick) generated documents in random configurations, while the correspondence ties every map the model computes to the implementation's.",
+        "Theorems: for EVERY source the line tables of a fresh StateBlock are five lists of length lineMax+1 whose rows satisfy 0 <= bMarks <= bMarks+tShift <= eMarks <= len(src) and 0 <= sCount - the ranges every map and content slice is computed from (C03_line_tables_well_formed); the thematic break rule maps exactly its own line and advances by one (C03_hr_map); the line scanner is a left fold that splits at any point (C03_line_scan_splits). The general map law (maps lie inside the document, children nest inside parents, siblings are ordered and disjoint, each block's map covers exactly its lines) is decided each run on the implementation by the map predicate over the syntax tree for ~2000 (quick) generated documents in random configurations, while the correspondence ties every map the model computes to the implementation's.",
         "Trusted: Coq kernel; block model tied by sampled correspondence; general map law by exploration (partial).",
         "DESIGN.md §3 C03",
     ),
@@ -137,7 +137,7 @@ CLAIMED = {
     "C07": (
         "proof",
         "Coq proofs on the line scanner (split at any point, nothing remembered across a line feed) + whole-pipeline correspondence on concatenations + concatenation-law oracle on the implementation",
-        "Theorems: the line scanner is a left fold that splits at any point (C07_line_scan_splits) and after a line feed is back in its initial mode with only the finished rows appended (C07_scanner_forgets_at_lf), so the per-line tables of A + blank + B are those of A, a blank row and those of B shifted. That no rule leaks container context, tight flags or parentType across top-level blocks is decided each run on the implementation: generated pairs (A, B) incl. hand families aimed at leaks (tables followed directly by list lines, lists with empty first items, failed setext headings / definitions before lists), side conditions evaluated as the property states them, blocks(A + blank + B) = blocks(A) ++ shifted blocks(B) on block tokens and inline content under commonmark, js-default, commonmark+table and random rule subsets (container maps compared with trailing blank lines trimmed).",
+        "Theorems: for EVERY newline-terminated A and every B, the line tables (bMarks, eMarks, tShift, sCount, bsCount, lineMax) of A + blank line + B are those of A followed by those of B with offsets moved by len(A)+1, the sentinel row of A doubling as the blank row (C07_tables_concat): the block loop starts B on exactly the rows it would see alone. The scanner is a left fold that splits at any point (C07_line_scan_splits) and after a line feed is back in its initial mode (C07_scanner_forgets_at_lf). That no rule leaks container context, tight flags or parentType across top-level blocks is decided each run on the implementation: generated pairs (A, B) incl. hand families aimed at leaks (tables followed directly by list lines, lists with empty first items, failed setext headings / definitions before lists), side conditions evaluated as the property states them, blocks(A + blank + B) = blocks(A) ++ shifted blocks(B) on block tokens and inline content under commonmark, js-default, commonmark+table and random rule subsets (container maps compared with trailing blank lines trimmed).",
         "Trusted: Coq kernel; block model tied by sampled correspondence; document-level law by exploration (partial).",
         "DESIGN.md §3 C07",
     ),
